@@ -16,6 +16,8 @@ def fancy_setitem(ex, arr, keys, v):
     if not all(isinstance(k, SSlice) and k.start is None and k.stop is None and k.step is None for k in keys[1:]):
         raise Unsupported("fancy-index assignment combined with partial slices")
     ids = k0.items if isinstance(k0, Vec) else (list(k0) if isinstance(k0, (list, tuple)) else None)
+    if ids is None and isinstance(k0, NDArray) and getattr(k0, "scatter_inverse", None) is not None and k0.ndim == 1:
+        return _scatter_symbolic(ex, arr, k0, keys, v)
     if ids is None:
         raise Unsupported("fancy-index assignment with a symbolic-length index array")
     n = arr.shape[0]
@@ -45,6 +47,36 @@ def fancy_setitem(ex, arr, keys, v):
             e = zite(to_z3(idx[0]) == to_z3(ids[t]), val(t, idx[1:]), e)
         return e
     set_region(ex, arr, region, value)
+
+
+def _scatter_symbolic(ex, arr, k0, keys, v):
+    """a[ids] = v / a[ids, :] = v for an index array of SYMBOLIC length m whose contract provides its inverse: `has(i)` - i occurs
+    in ids - and `pos(i)` - the position it occurs at (the contract states ids duplicate-free, so numpy's 'the last one wins' never
+    applies).  Row i of a becomes v[pos(i)] where has(i); the rest keeps its value.  Side obligations as numpy raises them: every
+    index in range (for an arbitrary position), as many values as indices."""
+    from .ops import as_ndarray, set_region
+    has, pos = k0.scatter_inverse
+    ctx = ex.ctx
+    m, n = to_z3(k0.shape[0]), to_z3(arr.shape[0])
+    t = ctx.fresh("scatter_pos")
+    ke, _ = k0.snapshot()
+    with ctx.scoped(z3.And(t >= 0, t < m)):
+        ctx.check_or_raise(zand(to_z3(ke((t,))) >= 0, to_z3(ke((t,))) < n), "IndexError", "index out of bounds")
+    if isinstance(v, (int, float)) or is_z3(v):
+        val = lambda idx: v
+    else:
+        va = as_ndarray(v if not isinstance(v, (list, tuple)) else Vec(v))
+        ve, _ = va.snapshot()
+        if va.ndim not in (arr.ndim, arr.ndim - 1):
+            raise Unsupported("fancy-index assignment: value rank")
+        if va.ndim == arr.ndim:
+            ctx.check_or_raise(to_z3(va.shape[0]) == m, "ValueError", "shape mismatch: value array could not be broadcast to indexing result")
+            for d in range(1, arr.ndim):
+                ctx.check_or_raise(to_z3(va.shape[d]) == to_z3(arr.shape[d]), "ValueError", "shape mismatch: value array could not be broadcast to indexing result")
+            val = lambda idx: ve((pos(to_z3(idx[0])),) + tuple(idx[1:]))
+        else:
+            val = lambda idx: ve(tuple(idx[1:]))
+    set_region(ex, arr, lambda idx: has(to_z3(idx[0])), val)
 
 
 def _triggers(expr, var):
